@@ -30,7 +30,7 @@ def sh(cmd, cwd=None, env=None, timeout=1800, stdin=None):
 
 class Lock:
     def __init__(self, name="lock"):
-        self.path = os.path.join(WORK, name)
+        self.path = os.path.join(WORK, "lock-" + name + RTAG)
     def __enter__(self):
         self.f = open(self.path, "w")
         fcntl.flock(self.f, fcntl.LOCK_EX)
@@ -46,12 +46,22 @@ def seed():
         return 1
 
 # ---------------------------------------------------------------- Coq
-def grep_forbidden():
+def grep_forbidden(only=None):
+    """forbidden vernacular in the development; `only` = a property file (relative to coq/): then just the
+    files it depends on are scanned (setup scans everything)"""
     bad = []
+    keep = None
+    if only:
+        try:
+            keep = set(os.path.normpath(f) for f in coq_deps(only, src=True))
+        except Exception:
+            keep = None
     for root, _, files in os.walk(COQ_SRC):
         for fn in files:
             if fn.endswith(".v"):
                 p = os.path.join(root, fn)
+                if keep is not None and os.path.normpath(os.path.relpath(p, COQ_SRC)) not in keep:
+                    continue
                 for i, line in enumerate(open(p, encoding="utf-8", errors="replace"), 1):
                     code = re.sub(r"\(\*.*?\*\)", "", line)
                     if FORBIDDEN.search(code):
@@ -95,9 +105,9 @@ def coq_make(targets=None):
 
 COQ_FAILED = []
 
-def coq_deps(vfile):
+def coq_deps(vfile, src=False):
     """transitive .v dependencies of coq/<vfile> inside the development (from coqdep)"""
-    rc, out = sh("coqdep -Q . hagall $(find . -name '*.v' | sed 's#^\\./##')", cwd=COQ, timeout=120)
+    rc, out = sh("coqdep -Q . hagall $(find . -name '*.v' | sed 's#^\\./##')", cwd=COQ_SRC if src else COQ, timeout=120)
     deps = {}
     for line in out.splitlines():
         if ":" not in line:
